@@ -53,6 +53,21 @@ func c17Trans(c *Ctx, pre *Node, st Step, res *Result, post *State) ([]Violation
 		// add and status use the same notion of "excluded", whatever reading of the ignore file one takes:
 		// once `add .` has succeeded, every file is either staged or excluded, so status lists nothing untracked
 		if len(vs) == 0 && res.Exit == 0 && len(st.Args) == 2 && (st.Args[1] == "." || st.Args[1] == "./") && qa.IndexErr == nil {
+			// ... and what it staged anew is what status showed as untracked before
+			if rb, _ := c.Probe(pre.State, nil, "status"); rb.Exit == 0 && pa.IndexErr == nil {
+				shown := map[string]bool{}
+				for _, u := range ParseStatus(rb.Stdout).Untracked {
+					shown[u] = true
+				}
+				was := pa.IndexMap()
+				for _, en := range qa.Index {
+					if _, tracked := was[en.Path]; !tracked && !shown[en.Path] {
+						vs = append(vs, Violation{Oracle: "add-agrees-with-status", Command: "add", Tags: st.Tags,
+							Detail: fmt.Sprintf("`add .` staged %q, which status (run just before) did not list as untracked: status hides what add does not skip", en.Path)})
+						break
+					}
+				}
+			}
 			r, _ := c.Probe(post, nil, "status")
 			if rep := ParseStatus(r.Stdout); r.Exit == 0 && len(rep.Untracked) > 0 {
 				vs = append(vs, Violation{Oracle: "status-agrees-with-add", Command: "status", Tags: st.Tags, Trace: append(traceFor(c, pre, st), Run("status")),
@@ -80,7 +95,7 @@ func c17Trans(c *Ctx, pre *Node, st Step, res *Result, post *State) ([]Violation
 }
 
 func checkC17(e *RunEnv) *CheckResult {
-	files := []string{"a", "sub/b", "build/o", "x.log", "sub/y.log", "my.goit/f", "goit/g", "a.logx", "build2/p", ".goit-hooks/h", "sub/.goit", "sub/build", "p.tar.gz", "nest/.goit/q", "a.b/f", "axb/f", "src/build/Makefile", "src/build/gen.c"}
+	files := []string{"a", "sub/b", "build/o", "x.log", "sub/y.log", "my.goit/f", "goit/g", "a.logx", "build2/p", ".goit-hooks/h", "sub/.goit", "sub/build", "p.tar.gz", "nest/.goit/q", "a.b/f", "axb/f", "src/build/Makefile", "src/build/gen.c", "sub/old.log/x.txt", "old.log/y.txt"}
 	addArgs := []string{".", "./", "sub", "sub/..", "build", "build/o", "x.log", ".goit", ".goit/HEAD", "a", "my.goit", "goit"}
 	ignores := []string{"build/\n", "*.log\n", "build/\n*.log\n", "build/\r\n*.log\r\n", "*.tar.gz\n", "build/\n\n*.log\n", "a.b/\n"}
 	var seedFiles []Step
